@@ -411,7 +411,73 @@ def fam_random(tier, rng):
     return [{"fam": "random", "prog": RandGen(rng).program()} for _ in range(n)]
 
 
-FAMILIES = [fam_nest, fam_expr, fam_for, fam_select, fam_data, fam_err, fam_random]
+def fam_elseif(tier, rng):
+    """IF with one to three ELSEIF arms and an optional ELSE: exactly the first arm whose condition holds runs"""
+    out = []
+    for n in (1, 2, 3):
+        for els in (True, False):
+            for x in range(0, n + 3):
+                b = B()
+                v = var("X", "I")
+                arms = [(bin_("=", v, lit("I", j)), [b.print(lit("$", "arm"), lit("I", j))]) for j in range(1, n + 2)]
+                main = [b.let(v, lit("I", x)), b.if_(arms, [b.print(lit("$", "else"))] if els else None), b.print(lit("$", "end"))]
+                out.append({"fam": "elseif:%d/%s" % (n, els), "prog": prog(main)})
+    return out
+
+
+def fam_forconv(tier, rng):
+    """the bounds and the step of a FOR are converted to the type of the counter when the loop starts: a value that
+    does not fit raises Overflow at the FOR statement, before any iteration"""
+    out = []
+    for ct, big in (("I", 40000), ("I", -40000), ("I", 32768)):       # inside the exactly representable domain of the spec
+        for which in ("lo", "hi", "step"):
+            for bt in ("L", "D", "S"):
+                if big > 2147483647 and bt == "L":
+                    continue
+                if bt == "S" and abs(big) > 16777216:
+                    continue
+                b = B()
+                c = var("K", ct)
+                bv = var("BV", bt)
+                lo, hi, st = lit("I", 1), lit("I", 3), lit("I", 1)
+                if which == "lo":
+                    lo = bv
+                elif which == "hi":
+                    hi = bv
+                else:
+                    st = bv
+                main = [b.let(bv, num(big)), b.print(lit("$", "start")), b.for_(c, lo, hi, st, [b.print(c)]), b.print(lit("$", "after"))]
+                out.append({"fam": "forconv:%s/%s/%s" % (ct, which, bt), "prog": prog(main)})
+    return out
+
+
+def fam_condfrac(tier, rng):
+    """a condition that is a number strictly between -1 and 1 (or any other non-zero fraction) is TRUE"""
+    out = []
+    for ft in ("S", "D"):
+        for (w, f) in ((0, 1), (0, 2), (0, 4), (0, 6), (0, 9), (3, 2)):
+            for neg in (False, True):
+                for host in ("if", "ifelse-line", "dountil", "dowhile-once", "elseif"):
+                    b = B()
+                    c = flit(ft, w, f, neg)
+                    if host == "if":
+                        main = [b.if_([(c, [b.print(lit("$", "t"))])], [b.print(lit("$", "f"))])]
+                    elif host == "ifelse-line":
+                        st = b.if_([(c, [b.print(lit("$", "t"))])], [b.print(lit("$", "f"))])
+                        st["oneline"] = True
+                        main = [st]
+                    elif host == "dountil":
+                        main = [b.do("bot", "until", c, [b.print(lit("$", "body"))])]
+                    elif host == "dowhile-once":
+                        main = [b.do("top", "until", c, [b.print(lit("$", "never"))])]
+                    else:
+                        main = [b.if_([(lit("I", 0), [b.print(lit("$", "zero"))]), (c, [b.print(lit("$", "t"))])], [b.print(lit("$", "f"))])]
+                    main.append(b.print(lit("$", "end")))
+                    out.append({"fam": "condfrac:%s/%s" % (host, ft), "prog": prog(main)})
+    return out
+
+
+FAMILIES = [fam_condfrac, fam_elseif, fam_forconv, fam_nest, fam_expr, fam_for, fam_select, fam_data, fam_err, fam_random]
 
 
 def cases(tier, seed):
